@@ -24,3 +24,6 @@ pub(in crate::server) mod aws;
 
 #[cfg(all(test, feature = "cloud"))]
 mod test;
+
+#[cfg(gothenburgbitfactory_taskchampion_verif)]
+pub(in crate::server) mod verif_store;
